@@ -122,3 +122,13 @@ CHECKS["C20"] = {
          "rule": "native go fuzzing of the exported columns parser (sql.Schema) with a seed corpus of valid and invalid specifications: no panic, no hang; distinct non-trivial = inputs that reached new coverage"},
     ],
 }
+
+CHECKS["C18"] = {
+    "level": "exploration",
+    "subs": [
+        _sub("TestC18_Box", 16000, 2000000, sq=10, st=10),
+        _sub("TestC18_KV", 1500, 60000, sq=6, st=6),
+        {"test": "FuzzDecrypt", "kind": "fuzz", "fuzztime": "120s", "workers": 6, "cases": {"quick": 0, "thorough": 0},
+         "rule": "native go fuzzing of V1NodeEncryptor.Decrypt seeded with valid ciphertexts of both formats: never panics; whatever it accepts must be byte-identical to a message sealed (by the encryptor, by the harness's sealer for the earlier format, or by NaCl secretbox) from the returned plaintext under the nonce in front; distinct non-trivial = inputs that reached new coverage"},
+    ],
+}
